@@ -13,7 +13,7 @@ import time
 from simdag.core import runner
 
 HOME = os.environ.get("VERIF_HOME", "/verif")
-DEFAULT_RUNS = {"C01": 300, "C02": 300, "C04": 400, "C05": 400, "C11": 200, "C13": 400, "C16": 200,
+DEFAULT_RUNS = {"C01": 2000, "C02": 2000, "C04": 4000, "C05": 4000, "C11": 1500, "C13": 3000, "C16": 1500,
                 "C03": 48, "C12": 48, "C14": 60, "C15": 32}
 
 
